@@ -3,6 +3,7 @@ import itertools
 
 from .. import engine
 from ..rules import ranges as rg
+from ..rules import errignored
 
 
 def tu_check(tu):
@@ -11,12 +12,15 @@ def tu_check(tu):
     bn = rg.bound_norm_c(tu)
     unb = rg.c_unbounded_table(tu)
     cross = rg.c_cross_table(tu)
-    return dict(cross={repr(k): v for k, v in cross.items()}, unb={repr(k): v for k, v in unb.items()}, range={repr(k): v for k, v in t.items()}, seek=sa, findings=bn["findings"], bn=bn["n"])
+    ei = errignored.analyse_tu(tu)
+    bn["findings"] = bn["findings"] + ei["findings"]
+    bn["ei"] = ei["stats"]["error_result_sites"]
+    return dict(ei=bn["ei"], cross={repr(k): v for k, v in cross.items()}, unb={repr(k): v for k, v in unb.items()}, range={repr(k): v for k, v in t.items()}, seek=sa, findings=bn["findings"], bn=bn["n"])
 
 
 def run(tier="quick", seed=0, use_cache=True):
     res = engine.Result("C02")
-    res.rules = ["RANGE-TABLE", "BOUND-NORM", "SEEK-ALGEBRA", "ITER-CONTINUE", "TREE-EXCLUDE", "UNBOUNDED-END", "RANGE-SHAPE", "ENDS-CROSS"]
+    res.rules = ["RANGE-TABLE", "BOUND-NORM", "SEEK-ALGEBRA", "ITER-CONTINUE", "TREE-EXCLUDE", "UNBOUNDED-END", "RANGE-SHAPE", "ENDS-CROSS", "ERR-IGNORED"]
     res.exhaustive = True
     res.explanation = (
         "Leaf-level and cursor-level pieces of the range machinery, decided "
@@ -48,7 +52,12 @@ def run(tier="quick", seed=0, use_cache=True):
         "the same leaf): same leaf -> offsets compared; different leaves -> "
         "the two end keys are compared whenever both ends were moved inward "
         "(given bound or exclusive omitted bound), and crossed ends lead to "
-        "the empty result. "
+        "the empty result. ERR-IGNORED: a local assigned from a repository "
+        "function that reports failure by a negative constant (length of a "
+        "lazy sequence, seek, search ...) is only compared with constants, "
+        "returned or copied until a branch edge has excluded the negative "
+        "values; any other use (arithmetic, call argument, index) means the "
+        "computation goes on with -1 while the exception is pending. "
         "The tree-level endpoint search with its move-left/right repair "
         "(BTree_findRangeEnd, _findbucket) and reachable tree shapes are not "
         "decided.")
@@ -151,6 +160,8 @@ def run(tier="quick", seed=0, use_cache=True):
     rg.bound_norm_py(res)
     rg.tree_exclude_py(res)
     res.floor("translation units", len(out), 22)
+    res.floor("results of error-reporting repository functions held in locals (OO)", out["OO"]["ei"], 25)
+    res.count("ERR-IGNORED", sum(r["ei"] for r in out.values()))
     res.samples = [{"c_range_table_OO": out["OO"]["range"]}, {"seek_effects_OO": out["OO"]["seek"]},
                    {"python_iter_table": {repr(k): v for k, v in it.items()}}]
     res.units = {"translation_units": len(out)}
